@@ -126,32 +126,7 @@ pub struct ZmtpReady { properties: HashMap<String, Vec<u8>> }
 
 pub enum ZmtpCommand { Ping(Bytes), Pong(Bytes), Ready(ZmtpReady), Error, Unknown(Bytes) }
 
-pub open spec fn starts_with(s: Seq<u8>, p: Seq<u8>) -> bool { s.len() >= p.len() && s.subrange(0, p.len() as int) == p }
-pub open spec fn PING_TAG() -> Seq<u8> { seq![4u8, 0x50, 0x49, 0x4e, 0x47] }
-pub open spec fn PONG_TAG() -> Seq<u8> { seq![4u8, 0x50, 0x4f, 0x4e, 0x47] }
-pub open spec fn is_ping(m: Msg) -> bool { m.flags.command && !m.flags.more && m.data is Some && starts_with(payload(m), PING_TAG()) && payload(m).len() >= 7 }
-pub open spec fn is_pong(m: Msg) -> bool { m.flags.command && !m.flags.more && m.data is Some && !is_ping(m) && starts_with(payload(m), PONG_TAG()) && payload(m).len() >= 5 }
-pub open spec fn ping_ctx(m: Msg) -> Seq<u8> { payload(m).subrange(7, payload(m).len() as int) }
-pub open spec fn pong_body(ctx: Seq<u8>) -> Seq<u8> { PONG_TAG() + ctx }
 pub open spec fn pong_wire(ctx: Seq<u8>) -> Seq<u8> { enc_frame(false, true, pong_body(ctx)) }
-
-impl ZmtpCommand {
-  #[verifier::external_body]
-  pub fn parse(msg: &Msg) -> (r: Option<ZmtpCommand>)
-    ensures
-      is_ping(*msg) <==> (r matches Some(ZmtpCommand::Ping(_))),
-      r matches Some(ZmtpCommand::Ping(c)) ==> c@ == ping_ctx(*msg),
-      is_pong(*msg) <==> (r matches Some(ZmtpCommand::Pong(_))),
-  { unimplemented!() }
-  #[verifier::external_body]
-  pub fn create_pong(context: &[u8]) -> (r: Msg)
-    ensures payload(r) == pong_body(context@), r.flags == (MsgFlags { more: false, command: true }), r.data is Some
-  { unimplemented!() }
-  #[verifier::external_body]
-  pub fn create_ping(ttl: u16, context: &[u8]) -> (r: Msg)
-    ensures payload(r) == PING_TAG() + to_be16(ttl as nat) + context@, r.flags == (MsgFlags { more: false, command: true }), r.data is Some
-  { unimplemented!() }
-}
 
 impl ZmtpReady {
   #[verifier::external_body]
